@@ -121,7 +121,7 @@ class ReaderSelect(Scenario):
 
 
 class ReaderIterate(Scenario):
-    """the 'manyfiles' flavour spreads one level over 70 binary files (more tasks than any worker count)"""
+    """the 'manyfiles' flavour spreads one level over more than 64 binary files (more tasks than any worker count)"""
 
     def __init__(self, flavour=""):
         self.flavour = flavour
@@ -129,7 +129,7 @@ class ReaderIterate(Scenario):
 
     def prepare(self, work, seed):
         if self.flavour == "manyfiles":
-            m, p = _plt(work, "plt_rim", seed, nlevels=1, bf=1, maxsz=1, base=[5, 5, 4], nfiles=70)
+            m, p = _plt(work, "plt_rim", seed, nlevels=1, bf=1, maxsz=1, base=[6, 6, 5], nfiles=90)
         else:
             m, p = _plt(work, "plt_ri", seed)
         return {"m": m, "p": p}
